@@ -35,6 +35,8 @@ def run(ses):
         jobs.append((job_segment, (p, 'some'))); jobs.append((job_segment, (p, 'none')))
         # edits of the footer segment itself: the S4 tamper query of C03 with an arbitrary segment text
         jobs.append((c03.job_tamper, (p, 'some', a, 'S4'))); jobs.append((c03.job_tamper, (p, 'some', a, 'S3')))
+    from .. import kani
+    jobs.append((kani.job_footer_compare, ()))
     jobs += upper.footer_jobs(ses.tier)
     run_jobs(ses, jobs)
     ses.trusted_base = c04.TRUSTED + ['base64url encoding is injective and strict decoding is canonical']
